@@ -471,10 +471,10 @@ Section Roundtrip.
     rewrite to_json_kv_fields. tsimp.
     cbn [f_payload_regex f_ignore_case fst snd].
     unfold json_payload in Epl. rewrite Hstr in Epl. unfold compile_payload_regex in Epl.
-    set (ic := match as_bool (jget KIgnoreCasePayload o) with Some b => b | None => false end) in *.
-    destruct (valid EFancy (if ic then ci_prefix ++ s else s)); [|discriminate].
-    inversion Epl; subst pa pb pc; clear Epl. cbn [fst snd].
-    destruct ic; cbn [opt_if]; repeat split.
+    remember (match as_bool (jget KIgnoreCasePayload o) with Some b => b | None => false end) as ic eqn:Eic.
+    clear Eic. revert Epl.
+    destruct ic; cbn iota; (destruct (valid EFancy _); intros Epl; [|discriminate]);
+      inversion Epl; subst pa pb pc; clear Epl; cbn [opt_if]; repeat split.
   Qed.
 
   (* a filter that came out of one of the four loaders *)
